@@ -206,5 +206,17 @@ def run(ctx):
     core.run_stream(ctx, core.Stream("signed envelopes x authorized subsets x thresholds 1..n+1; post-signing edits at every JSON path (value, rename, type, reorder, delete)",
                                      vcases, lambda c, io, mo: None if (core.impl_class(io) == "accept") == (core.model_class(mo) == "accept") else "accept/reject differs: implementation %s, model %s" % (core.impl_class(io), core.model_class(mo)),
                                      voracle))
+    # wrap_as_signable as written in signing.py: Gen/Source.v (translated on this run) interpreted by PySrc.run_prog, against the implementation
+    from gen import interesting_values
+    wvals = [v for v in interesting_values()] + list(J.FIXED[:20]) + E.PAYLOADS[:4] + [True, 1, 1.0, -0.0, (1, [2]), {"k": (1,)}, {1, 2}, frozenset(), b"x", bytearray(b"x"), Obj(3)]
+    wsrc = []
+    for v in wvals:
+        try:
+            wsrc.append({"w": wire.case("src_run", "wrap_as_signable", v), "meta": {"fn": "wrap_as_signable"}})
+        except TypeError:
+            pass
+    core.run_stream(ctx, core.Stream("interpreted source (Gen/Source.v via PySrc.run_prog) vs implementation: wrap_as_signable on values of every type",
+                                     wsrc, lambda c, io, mo: None if io == mo else "the interpreted source and the implementation differ on wrap_as_signable: impl %s, interpreter %s" % (io[:80], mo[:80]),
+                                     None, nontrivial=lambda c, i, m: m != "U", mismatch_kind="tie"))
     ctx.assumptions = ["ed25519 is a parameter of the theorems (sizes, correctness; ideal binding for edit_stops_counting only); the oracle tables come from pyca/cryptography called directly",
                        "canonical-bytes equality across signing orders is checked on the implementation; the theorem states lookup-by-lookup equality of the maps (byte equality follows from C07 order independence)"]
